@@ -317,6 +317,44 @@ fn check_fixture<D: Distance>(f: &Fixture, c: &mut Counters, sigs: &mut BTreeSet
     Ok(())
 }
 
+/// Large id sets: metadata item sets and buckets big enough for roaring's bitmap containers
+/// (> 4096 ids in one 65536-block) and ids spread over several blocks must still follow the layout.
+fn check_big_sets<D: Distance>(metric: Metric, rng: &mut StdRng, c: &mut Counters) -> Result<(), String> {
+    let world = World::new(256 << 20, false);
+    let dims = 2usize;
+    let index: u16 = [0u16, 300, 65535][rng.gen_range(0..3)];
+    let mut wtxn = world.env.write_txn().unwrap();
+    let w = Writer::<D>::new(adb::<D>(world.db), index, dims);
+    let mut m = IndexModel::new(index, metric, dims);
+    let mut ids: Vec<u32> = (0..9500u32).collect(); // one dense block: even half of it is > 4096
+    ids.extend((0..300u32).map(|k| 65536 * 3 + k * 7)); // a sparse block
+    ids.extend((0..40u32).map(|k| u32::MAX - k * 1000)); // the top of the range
+    for id in ids {
+        let v = vec![rng.gen_range(-1.0f32..1.0), rng.gen_range(-1.0f32..1.0)];
+        w.add_item(&mut wtxn, id, &v).map_err(|e| format!("{e:?}"))?;
+        m.items.insert(id, v);
+    }
+    let mut r = StdRng::seed_from_u64(3);
+    // a big capacity: buckets of several thousand ids
+    w.builder(&mut r).n_trees(2).split_after(6000).build(&mut wtxn).map_err(|e| format!("big-set build: {e:?}"))?;
+    let d = rawdb::dump(&wtxn, world.db)?;
+    let decl = |i: u16| if i == index { Some((metric, dims)) } else { None };
+    let dec = rawdb::decode(&d, &decl).map_err(|e| format!("{} big sets: {e}", metric.short()))?;
+    let ix = dec.get(&index).ok_or("index vanished")?;
+    let st = forest::check_forest(ix, dims, metric.disk_name()).map_err(|e| format!("{} big sets: {e}", metric.short()))?;
+    if st.max_bucket <= 4096 {
+        return Err(format!("INCONCLUSIVE big-set case did not produce a bucket above 4096 ids (max {})", st.max_bucket));
+    }
+    m.has_metadata = true;
+    let probe: Vec<u32> = m.items.keys().copied().step_by(97).collect();
+    engine::check_store::<D>(&wtxn, world.db, &m, &probe, true, c).map_err(|e| format!("{} big sets: {e}", metric.short()))?;
+    let mut qrng = StdRng::seed_from_u64(9);
+    engine::check_exact::<D>(&wtxn, world.db, &m, &mut qrng, 2, true, c).map_err(|e| format!("{} big sets: {e}", metric.short()))?;
+    c.inc("big_set_cases");
+    c.max("max_bucket_decoded", st.max_bucket);
+    Ok(())
+}
+
 /// keys written through the public API have the reference encoding and sort as (index, kind, id)
 fn check_key_lattice<D: Distance>(metric: Metric, rng: &mut StdRng, c: &mut Counters) -> Result<(), String> {
     let world = World::new(64 << 20, false);
@@ -410,6 +448,9 @@ pub fn run(args: &Args) {
             cases.push((1, r << 8 | i as u64));
         }
     }
+    for (i, _) in ALL_METRICS.iter().enumerate() {
+        cases.push((2, i as u64));
+    }
     for (ci, (kind, param)) in cases.iter().enumerate() {
         if ci as u64 % nshards != shard {
             continue;
@@ -429,6 +470,10 @@ pub fn run(args: &Args) {
                     samples.push(J::obj().set("fixture", J::s(path.display().to_string())).set("entries", J::i(f.kv.len() as u64)).set("indexes", J::s("7 (deep forest, ids at the u32 edges, one incremental round), 8 (pending updates), 65535 (single bucket)")));
                 }
                 with_metric!(metric, D, check_fixture::<D>(&f, &mut c, &mut sigs))
+            } else if *kind == 2 {
+                let mut rng = StdRng::seed_from_u64(cs);
+                sigs.insert(hash_str(&format!("bigsets|{}", metric.short())));
+                with_metric!(metric, D, check_big_sets::<D>(metric, &mut rng, &mut c))
             } else {
                 let mut rng = StdRng::seed_from_u64(cs);
                 sigs.insert(hash_str(&format!("lattice|{}|{}", metric.short(), param >> 8)));
@@ -445,7 +490,7 @@ pub fn run(args: &Args) {
             }
             Err(msg) => {
                 c.inc("violations");
-                emit("VIOL", &J::obj().set("property", J::s("C16")).set("case_seed", J::s(format!("{cs:#x}"))).set("key", J::s(if *kind == 0 { "format:fixture" } else { "format:keys" })).set("step", J::i(*param)).set("msg", J::s(msg)));
+                emit("VIOL", &J::obj().set("property", J::s("C16")).set("case_seed", J::s(format!("{cs:#x}"))).set("key", J::s(["format:fixture", "format:keys", "format:big-sets"][*kind as usize])).set("step", J::i(*param)).set("msg", J::s(msg)));
                 line(&format!("END {cs:#x} violation"));
             }
         }
@@ -458,8 +503,8 @@ pub fn run(args: &Args) {
         .set("counters", c.to_json())
         .set("sigs", J::Arr(sigs.iter().map(|s| J::s(format!("{s:x}"))).collect()))
         .set("samples", J::Arr(samples))
-        .set("rule", J::s("forward: 7 committed golden fixtures (one per metric; raw key/value bytes + expected items + recorded queries, generated once by the reference tree and verified by the oracles at generation) loaded through raw puts, then public API read-back, Reader::open outcome, C01 walker, recorded queries (neighbours and distances within 1e-6), incremental update + rebuild; backward: keys written through the public API over the lattice index {0,1,255,256,65535,random} x id {0,1,255,256,2^16,2^24,2^31,u32::MAX,random} compared with the reference encoding and LMDB order; non-trivial+distinct = distinct (metric, index, outcome) fixture situations and (metric, round) lattices"))
-        .set("required", J::Arr(["fixture_queries_replayed", "fixture_forests_walked", "fixture_incremental_rebuilds", "fixture_indexes_opened", "key_lattices", "lattice_keys_checked"].iter().map(|s| J::s(*s)).collect()))
+        .set("rule", J::s("forward: 7 committed golden fixtures (one per metric; raw key/value bytes + expected items + recorded queries, generated once by the reference tree and verified by the oracles at generation) loaded through raw puts, then public API read-back, Reader::open outcome, C01 walker, recorded queries (neighbours and distances within 1e-6), incremental update + rebuild; backward: keys written through the public API over the lattice index {0,1,255,256,65535,random} x id {0,1,255,256,2^16,2^24,2^31,u32::MAX,random} compared with the reference encoding and LMDB order; per metric one index of 9 840 items (a dense 65536-block above 4096 ids, a sparse block, the top of the id range) with buckets of thousands of ids, so that roaring's bitmap containers appear in buckets and in the metadata; non-trivial+distinct = distinct (metric, index, outcome) fixture situations and (metric, round) lattices"))
+        .set("required", J::Arr(["fixture_queries_replayed", "fixture_forests_walked", "fixture_incremental_rebuilds", "fixture_indexes_opened", "key_lattices", "lattice_keys_checked", "big_set_cases"].iter().map(|s| J::s(*s)).collect()))
         .set("wall_s", J::Num(t0.elapsed().as_secs_f64()));
     emit("SUMMARY", &j);
 }
